@@ -84,6 +84,13 @@ def file_path(size):
     return os.path.join(FX, 'f%d.bin' % size)
 
 
+def file_offset(a):
+    """Position the handler leaves its file object at before returning it (it sniffed a header, or serves a tail):
+    the body the application produced is what the object yields from there."""
+    size = FILE_SIZES[a % len(FILE_SIZES)]
+    return min(size, [0, 0, 5, size // 2, size][(a // len(FILE_SIZES)) % 5])
+
+
 def make_fixtures():
     """Small read-only files shared by all processes; created atomically, never modified."""
     os.makedirs(FX, exist_ok=True)
@@ -186,6 +193,7 @@ class Root(Controller):
             return items_of(p)
         if k == 'file':
             f = open(file_path(FILE_SIZES[a % len(FILE_SIZES)]), 'rb')
+            f.seek(file_offset(a))
             if p['stream']:
                 return f
             res.body = f
@@ -313,7 +321,7 @@ def expectation(p, n):
             # (200, empty body) are both faithful; what is demanded is that the request is answered
             st_, body = (200, 404), None
     elif k in ('file', 'servefile'):
-        body = file_bytes(FILE_SIZES[a % len(FILE_SIZES)])
+        body = file_bytes(FILE_SIZES[a % len(FILE_SIZES)])[file_offset(a) if k == 'file' else 0:]
     elif k == 'pipe':
         body = b''.join(pipe_pieces(p))
     elif k == 'ownresp':
@@ -379,7 +387,7 @@ def wants_close(p):
 class C15(Prop):
     id = 'C15'
     rule = ('sequences of 1-4 (thorough: 1-6) requests on one connection of a socket-less circuits.web server; each request draws '
-            'handler result kind (25 kinds: str/bytes/empty/100 kB/list/yielding handler/file sizes 0..10000/serve_file/'
+            'handler result kind (25 kinds: str/bytes/empty/100 kB/list/yielding handler/file sizes 0..10000 read from the start, an offset or the end/serve_file/'
             'pipe-like stream with scripted short reads/application-made Response object (own path /o)/'
             'generator body/pushed stream/explicit Response/status with body/204,304,101 with and without body/errors/'
             'raise, also after yields/redirect) x HTTP 1.0|1.1 x Connection absent|keep-alive|close x GET|HEAD x stream on|off x '
@@ -392,7 +400,7 @@ class C15(Prop):
                    'a Response object made by the application carries the application\'s own close decision: "client asked for close => '
                    'closed" is not asserted for it (announced <=> done is)',
                    'response.stream=True is only combined with iterator bodies (file, generator, pushed chunks), as in wsgi.py / examples')
-    budget = {'quick': (1500, 4), 'thorough': (8000, 16)}
+    budget = {'quick': (1500, 4), 'thorough': (50000, 16)}
 
     def setup(self):
         driver.quiet_process()
@@ -420,7 +428,7 @@ class C15(Prop):
             'list': [{'items': i} for i in seqs[:4]],
             'yields': [{'items': i} for i in seqs],
             'yieldraise': [{'items': []}, {'items': [0]}],
-            'file': [{'a': i, 'stream': b} for i in range(len(FILE_SIZES)) for b in (True, False)],
+            'file': [{'a': i, 'stream': b} for i in list(range(len(FILE_SIZES))) + [14, 17, 22, 23, 29] for b in (True, False)],
             'servefile': [{'a': i, 'stream': b} for i in (0, 3, 5) for b in (True, False)],
             'gen': [{'items': i, 'stream': b} for i in seqs for b in (True, False)],
             'push': [{'items': i} for i in ([], [0], [0, 2], [5, 4])],
